@@ -25,7 +25,7 @@ package queue
 
 //@ spec
 //@ pred J0(s *MemoryStore) := s.items != nil && s.leases != nil
-//@ pred J1(s *MemoryStore) := forall id string :: id in s.items ==> s.items[id] != nil && s.items[id].ID == id
+//@ pred J1(s *MemoryStore) := forall id string :: id in s.items ==> s.items[id] != nil && s.items[id].ID == id && allocated(s.items[id])
 //@ pred J2(s *MemoryStore) := forall id string :: !(id in s.items) ==> s.items[id] == nil
 //@ pred J3a(s *MemoryStore) := forall id string :: id in s.items && s.items[id].State == StateLeased ==> s.items[id].LeaseID != "" && s.items[id].LeaseID in s.leases && s.leases[s.items[id].LeaseID] == id
 //@ pred J3b(s *MemoryStore) := forall id string :: id in s.items && s.items[id].State != StateLeased ==> s.items[id].LeaseID == ""
@@ -120,6 +120,102 @@ package queue
 //@   ensures [C03:returned_were_ready] let now := ite(req.Now != 0, req.Now, storeNow) :: forall k int :: 0 <= k && k < len(result0.Items) ==> let id := result0.Items[k].ID :: let e := s.items[id] :: (req.Route == "" || result0.Items[k].Route == req.Route) && (req.Target == "" || result0.Items[k].Target == req.Target) && (old(expiredAt(e, now)) || old(e.NextRunAt) == 0 || old(e.NextRunAt) <= now)
 //@   ensures [C03:distinct] forall j int, k int :: 0 <= j && j < k && k < len(result0.Items) ==> result0.Items[j].ID != result0.Items[k].ID && result0.Items[j].LeaseID != result0.Items[k].LeaseID
 //@   ensures [C07:payload_as_stored] forall k int :: 0 <= k && k < len(result0.Items) ==> let id := result0.Items[k].ID :: let e := s.items[id] :: let p := result0.Items[k].Payload :: let h := result0.Items[k].Headers :: p == old(e.Payload) && h == old(e.Headers)
+
+//@ spec
+//@ ghost var lastEvicted string
+//@ pred isActive(e *Envelope) := e.State == StateQueued || e.State == StateLeased
+//@ pred isActiveOrDelivered(e *Envelope) := e.State == StateQueued || e.State == StateLeased || e.State == StateDelivered
+
+//@ func (*MemoryStore).activeCountLocked
+//@   monitor locked
+//@   requires s != nil && J1(s) && J2(s)
+//@   loop 1 ghost C set[string] := empty(string) step ite(isActive(s.items[lastkey]), add(C, lastkey), C)
+//@   loop 1 invariant [count] n == card(C)
+//@   loop 1 invariant [members] forall k string :: k in C <==> (k in visited && k in s.items && isActive(s.items[k]))
+//@   ensures [C12:counts_active] result == card(setof(id string :: id in s.items && isActive(s.items[id])))
+
+//@ func (*MemoryStore).activeDeliveredCountLocked
+//@   monitor locked
+//@   requires s != nil && J1(s) && J2(s)
+//@   loop 1 ghost C set[string] := empty(string) step ite(isActiveOrDelivered(s.items[lastkey]), add(C, lastkey), C)
+//@   loop 1 invariant [count] n == card(C)
+//@   loop 1 invariant [members] forall k string :: k in C <==> (k in visited && k in s.items && isActiveOrDelivered(s.items[k]))
+//@   ensures [C12:counts_active_delivered] result == card(setof(id string :: id in s.items && isActiveOrDelivered(s.items[id])))
+
+//@ func (*MemoryStore).incEvictionLocked
+//@   monitor locked
+//@   requires s != nil
+//@   modifies s.evictionsTotalByReason, field(s.evictionsTotalByReason)
+
+//@ func (*MemoryStore).evictLocked
+//@   monitor locked
+//@   requires s != nil && wf(s)
+//@   modifies s.items, s.leases, s.evictionsTotalByReason, field(s.evictionsTotalByReason), lastEvicted
+//@   sets lastEvicted := ite(result, id, old(lastEvicted))
+//@   ensures [result] result <==> old(id in s.items)
+//@   ensures [removed] !(id in s.items) && (result ==> lastEvicted == id) && (!result ==> lastEvicted == old(lastEvicted))
+//@   ensures [others] forall id2 string :: id2 != id ==> ((id2 in s.items) <==> old(id2 in s.items)) && s.items[id2] == old(s.items[id2])
+//@   ensures [leases] old(id in s.items) ==> leasesSameExcept(s, old(s.items[id].LeaseID)) && (old(s.items[id].LeaseID) != "" ==> !(old(s.items[id].LeaseID) in s.leases))
+//@   ensures [leases_noop] !old(id in s.items) || old(s.items[id].LeaseID) == "" ==> leasesSame(s)
+//@   ensures [wf] wf(s)
+
+//@ func (*MemoryStore).dropOldestQueuedLocked
+//@   monitor locked
+//@   requires s != nil && wf(s)
+//@   modifies s.items, s.leases, s.evictionsTotalByReason, field(s.evictionsTotalByReason), lastEvicted
+//@   loop 1 invariant [none_before] forall j int :: 0 <= j && j <= rangeindex ==> !(s.order[j] in s.items && s.items[s.order[j]].State == StateQueued)
+//@   ensures [C12:victim_was_queued] let v := lastEvicted :: result ==> old(v in s.items) && old(s.items[v].State) == StateQueued && !(v in s.items)
+//@   ensures [C12:one_victim] result ==> (forall id2 string :: id2 != lastEvicted ==> ((id2 in s.items) <==> old(id2 in s.items)) && s.items[id2] == old(s.items[id2])) && leasesSame(s)
+//@   ensures [C12:oldest_first] result ==> exists i int :: 0 <= i && i < len(s.order) && s.order[i] == lastEvicted && (forall j int :: 0 <= j && j < i ==> !(old(s.order[j] in s.items) && old(s.items[s.order[j]].State) == StateQueued))
+//@   ensures [C12:none_left] !result ==> (forall j int :: 0 <= j && j < len(s.order) ==> !(s.order[j] in s.items && s.items[s.order[j]].State == StateQueued)) && (forall id2 string :: ((id2 in s.items) <==> old(id2 in s.items)) && s.items[id2] == old(s.items[id2])) && leasesSame(s) && lastEvicted == old(lastEvicted)
+//@   ensures [wf] wf(s)
+
+//@ func (*MemoryStore).memoryPressureStatusLocked
+//@   monitor locked
+//@   trusted
+//@   requires s != nil
+
+//@ spec
+//@ pred enqueueable(env Envelope) := env.LeaseID == "" && env.LeaseUntil == 0 && env.Attempt >= 0 && (env.State == "" || env.State == StateQueued || env.State == StateDead || env.State == StateDelivered || env.State == StateCanceled)
+//@ pred storedAs(e *Envelope, env Envelope, now time.Time) := e.Route == env.Route && e.Target == env.Target && e.Payload == env.Payload && e.State == ite(env.State == "", StateQueued, env.State) && e.Attempt == env.Attempt && e.LeaseID == "" && e.LeaseUntil == 0 && e.ReceivedAt == ite(env.ReceivedAt == 0, now, env.ReceivedAt) && e.NextRunAt == ite(env.NextRunAt == 0, ite(env.ReceivedAt == 0, now, env.ReceivedAt), env.NextRunAt) && e.DeadReason == ite(ite(env.State == "", StateQueued, env.State) == StateDead, env.DeadReason, "") && ((e.Headers == nil) <==> (env.Headers == nil)) && (forall k string :: ((k in e.Headers) <==> (k in env.Headers)) && (k in env.Headers ==> e.Headers[k] == env.Headers[k]))
+
+//@ func (*MemoryStore).queuedCountLocked
+//@   monitor locked
+//@   requires s != nil && J1(s) && J2(s)
+//@   loop 1 ghost C set[string] := empty(string) step ite(s.items[lastkey].State == StateQueued, add(C, lastkey), C)
+//@   loop 1 invariant [count] n == card(C)
+//@   loop 1 invariant [members] forall k string :: k in C <==> (k in visited && k in s.items && s.items[k].State == StateQueued)
+//@   ensures [C12:counts_queued] result == card(setof(id string :: id in s.items && s.items[id].State == StateQueued))
+
+//@ func (*MemoryStore).Enqueue
+//@   requires s != nil && enqueueable(env)
+//@   label P after call maybePruneLocked
+//@   modifies s.items, s.leases, s.lastPrune, s.evictionsTotalByReason, field(s.evictionsTotalByReason), s.order, s.notify, s.memoryPressureRejects, storeNow, lastEvicted
+//@   loop 1 invariant [wf] wf(s)
+//@   loop 1 invariant [policy] i >= 0 && (drop > 0 ==> s.dropPolicy == "drop_oldest" && s.maxDepth > 0)
+//@   loop 1 invariant [no_new] forall id string :: id in s.items ==> at(P, id in s.items) && s.items[id] == at(P, s.items[id])
+//@   loop 1 invariant [victims_queued] forall id string :: at(P, id in s.items) && !(id in s.items) ==> at(P, s.items[id].State) == StateQueued && drop > 0
+//@   loop 1 invariant [leases] forall l string :: ((l in s.leases) <==> at(P, l in s.leases)) && s.leases[l] == at(P, s.leases[l])
+//@   loop 1 invariant [new_id_absent] !(env.ID in s.items) && env.ID != ""
+//@   ensures [C12:refusal_leaves_queue_unchanged] result != nil ==> forall id string :: ((id in s.items) <==> at(P, id in s.items)) && s.items[id] == at(P, s.items[id])
+//@   ensures [C02:survivors_untouched] forall id string :: at(P, id in s.items) && id in s.items ==> s.items[id] == at(P, s.items[id]) && sameSince(P, s.items[id])
+//@   ensures [C12:evicts_only_queued] forall id string :: at(P, id in s.items) && !(id in s.items) ==> at(P, s.items[id].State) == StateQueued && s.dropPolicy == "drop_oldest" && s.maxDepth > 0 && result == nil
+//@   ensures [C12:full_means_full] result == ErrQueueFull ==> s.maxDepth > 0 && (card(setof(id string :: id in s.items && isActive(s.items[id]))) >= s.maxDepth || (s.deliveredRetentionMaxAge > 0 && card(setof(id string :: id in s.items && isActiveOrDelivered(s.items[id]))) >= s.maxDepth))
+//@   ensures [C12:reject_policy_refuses_when_full] s.maxDepth > 0 && s.dropPolicy != "drop_oldest" && at(P, card(setof(id string :: id in s.items && isActive(s.items[id])))) >= s.maxDepth ==> result == ErrQueueFull
+//@   ensures [C12:admitted_only_with_room_or_drop] result == nil && s.maxDepth > 0 && s.dropPolicy != "drop_oldest" ==> at(P, card(setof(id string :: id in s.items && isActive(s.items[id])))) < s.maxDepth
+//@   ensures [C02:stored_exactly_once] result == nil ==> forall id string :: id in s.items && !at(P, id in s.items) ==> s.items[id].ID == id && (env.ID != "" ==> id == env.ID) && storedAs(s.items[id], env, storeNow)
+//@   ensures [C02:stored_unique] forall id string, id2 string :: id in s.items && !at(P, id in s.items) && id2 in s.items && !at(P, id2 in s.items) ==> id == id2
+//@   ensures [C02:stored_present] result == nil && env.ID != "" ==> env.ID in s.items && !at(P, env.ID in s.items)
+//@   ensures [C02:duplicate_rejected] env.ID != "" && at(P, env.ID in s.items) ==> result != nil
+//@   ensures [errors] result == nil || result == ErrQueueFull || result == ErrMemoryPressure || result == ErrEnvelopeExists
+//@   ensures [leases_unchanged] forall l string :: ((l in s.leases) <==> at(P, l in s.leases)) && s.leases[l] == at(P, s.leases[l])
+
+//@ func cloneStringMap
+//@   loop 1 invariant [copied] forall k string :: k in visited ==> k in out && out[k] == in[k]
+//@   loop 1 invariant [only] forall k string :: k in out ==> k in in && out[k] == in[k]
+//@   loop 1 invariant [fresh] out != nil && fresh(out) && out != in
+//@   ensures [fresh] result != nil && fresh(result)
+//@   ensures [same_content] forall k string :: ((k in result) <==> (k in in)) && (k in in ==> result[k] == in[k])
 
 //@ func (*MemoryStore).Ack
 //@   requires s != nil
